@@ -21,6 +21,7 @@ fn cfg(tier: Tier) -> ProgCfg {
             idx_delete: 1,
             read: 1,
             list: 1,
+            switch_cache: 1,
             ..OpMix::NONE
         },
         wmix: WriteMix { bad_decls: false, meta: true, by_hash: true, rich_matching: false, interfere: false },
